@@ -236,16 +236,30 @@ fn mk_internal(
 ) -> EncryptionLayerInternal<Abs> {
     let key = [2u8; 32];
     let nonce = [3u8; NONCE_SIZE];
+    // built through the real constructor, then fields are *assigned* (a refactor that adds a field
+    // does not break the harness). The repair-only decryption mode of the configuration is
+    // symbolic: the normal reader must authenticate whatever it says.
+    let cfg = EncryptionReaderConfig {
+        private_keys: Vec::new(),
+        encrypt_parameters: Some((key, nonce)),
+        failsafe_mode: if kani::any() { FailSafeReaderDecryptionMode::OnlyAuthenticatedData } else { FailSafeReaderDecryptionMode::DataEvenUnauthenticated },
+    };
+    let mut l = match EncryptionLayerInternal::new(Box::new(inner), &cfg) {
+        Ok(l) => l,
+        Err(e) => {
+            core::mem::forget(e);
+            kani::assume(false);
+            unreachable!()
+        }
+    };
+    core::mem::forget(cfg);
+    unsafe { GCM_NEW_CALLS = 0 };
     let mut c = Cursor::new(vec_of_len(cache_len));
     c.set_position(cache_pos);
-    EncryptionLayerInternal {
-        inner: Box::new(inner),
-        cipher: model_build(&key, &build_nonce(nonce, ccn)),
-        key,
-        nonce,
-        chunk_cache: c,
-        current_chunk_number: ccn,
-    }
+    l.cipher = model_build(&key, &build_nonce(nonce, ccn));
+    l.chunk_cache = c;
+    l.current_chunk_number = ccn;
+    l
 }
 
 /// arbitrary reader pre-state over a stream of `n` bytes (history abstraction: whatever was read
@@ -343,6 +357,7 @@ fn any_wf_len() -> u64 {
 #[kani::unwind(3)]
 #[kani::stub(alloc::fmt::format, nofmt)]
 #[kani::stub(<std::io::Error as std::convert::From<crate::errors::Error>>::from, cheap_from)]
+#[kani::stub(crate::crypto::aesgcm::AesGcm256::new, stub_gcm_new)]
 #[kani::stub(EncryptionLayerInternal::load_in_cache, contract_load_auth)]
 fn h_enc_seek_start() {
     let n = any_wf_len();
@@ -379,6 +394,7 @@ fn h_enc_seek_start() {
 #[kani::unwind(3)]
 #[kani::stub(alloc::fmt::format, nofmt)]
 #[kani::stub(<std::io::Error as std::convert::From<crate::errors::Error>>::from, cheap_from)]
+#[kani::stub(crate::crypto::aesgcm::AesGcm256::new, stub_gcm_new)]
 #[kani::stub(EncryptionLayerInternal::load_in_cache, contract_load_auth)]
 fn h_enc_seek_end() {
     let n = any_wf_len();
@@ -423,6 +439,7 @@ fn positioned_internal(n: u64, c: u64) -> EncryptionLayerInternal<Abs> {
 #[kani::unwind(3)]
 #[kani::stub(alloc::fmt::format, nofmt)]
 #[kani::stub(<std::io::Error as std::convert::From<crate::errors::Error>>::from, cheap_from)]
+#[kani::stub(crate::crypto::aesgcm::AesGcm256::new, stub_gcm_new)]
 #[kani::stub(EncryptionLayerInternal::load_in_cache, contract_load_auth)]
 fn h_enc_seek_current() {
     let n = any_wf_len();
@@ -517,6 +534,31 @@ fn model_rte<R: Read + ?Sized>(r: &mut R, buf: &mut Vec<u8>, _hint: Option<usize
     }
     Ok(n)
 }
+/// the same driver for a source whose first read is short (`Abs::short_reads`: <= 7 bytes, then
+/// everything): exactly TWO reads into the spare capacity — what std's loop does on such a source
+fn model_rte2<R: Read + ?Sized>(r: &mut R, buf: &mut Vec<u8>, _hint: Option<usize>) -> io::Result<usize> {
+    let len = buf.len();
+    let cap = buf.capacity();
+    let n1 = {
+        let dst = unsafe { core::slice::from_raw_parts_mut(buf.as_mut_ptr().add(len), cap - len) };
+        r.read(dst)?
+    };
+    unsafe { buf.set_len(len + n1) };
+    let n2 = {
+        let dst = unsafe { core::slice::from_raw_parts_mut(buf.as_mut_ptr().add(len + n1), cap - len - n1) };
+        r.read(dst)?
+    };
+    unsafe { buf.set_len(len + n1 + n2) };
+    let n = n1 + n2;
+    if n >= 16 {
+        let mut i = 0;
+        while i < 16 {
+            buf[len + n - 16 + i] = TAGPAT[i];
+            i += 1;
+        }
+    }
+    Ok(n)
+}
 
 /// stand-in for `Vec::resize` in the load bodies, which only ever shrink the vector there
 /// (asserted): avoids the symbolic-size reallocation path of the generic implementation
@@ -528,9 +570,9 @@ fn shrink_only_resize<T: Clone, A: core::alloc::Allocator>(v: &mut Vec<T, A>, ne
 //@ props: C02 C03 C06 C08 C13
 //@ scaled: yes
 //@ functions: layers::encrypt::EncryptionLayerInternal::load_in_cache (real body); layers::encrypt::build_nonce; subtle ct_eq on the 16-byte tag
-//@ bounds: SCALED build (feature mla_verif: chunk = 4 bytes, tag = 16 bytes unchanged); inner length n <= 3*20+64, any start position q <= n (so every remaining length 0..=3 chunks incl. 1..15 bytes), any chunk counter, arbitrary previous cache
+//@ bounds: SCALED build (feature mla_verif: chunk = 4 bytes, tag = 16 bytes unchanged); source delivering everything asked; inner length n <= 3*20+64, any start position q <= n (so every remaining length 0..=3 chunks incl. 1..15 bytes), any chunk counter, arbitrary previous cache
 //@ stubs: AesGcm256::new -> same struct via model constructors + ghost log; AesGcm256::decrypt -> IDEAL MAC (tag matches iff chunk authentic); alloc::io::default_read_to_end -> single read into spare capacity; alloc::fmt::format; From<mla::Error> for io::Error
-//@ outside: that AES-GCM is a secure MAC; sources that split a chunk over several reads (std read_to_end loop is trusted)
+//@ outside: that AES-GCM is a secure MAC
 //@ replay: verif_replay_encrypt::enc_load q:u64 n:u64 ccn:u32 auth:bool
 #[kani::proof]
 #[kani::unwind(34)]
@@ -541,6 +583,29 @@ fn shrink_only_resize<T: Clone, A: core::alloc::Allocator>(v: &mut Vec<T, A>, ne
 #[kani::stub(alloc::io::default_read_to_end, model_rte)]
 #[kani::stub(alloc::vec::Vec::resize, shrink_only_resize)]
 fn h_enc_load_auth_refines() {
+    load_auth_body(false);
+}
+
+//@ props: C02 C03 C06 C08 C13
+//@ scaled: yes
+//@ functions: layers::encrypt::EncryptionLayerInternal::load_in_cache (real body); layers::encrypt::build_nonce; subtle ct_eq on the 16-byte tag
+//@ bounds: SCALED build (feature mla_verif: chunk = 4 bytes, tag = 16 bytes unchanged); source whose FIRST read delivers at most 7 bytes (fewer than a tag, fewer than asked), later reads everything; inner length n <= 3*20+64, any start position q <= n (so every remaining length 0..=3 chunks incl. 1..15 bytes), any chunk counter, arbitrary previous cache
+//@ stubs: AesGcm256::new -> same struct via model constructors + ghost log; AesGcm256::decrypt -> IDEAL MAC (tag matches iff chunk authentic); alloc::io::default_read_to_end -> exactly two reads into spare capacity; alloc::fmt::format; From<mla::Error> for io::Error
+//@ outside: that AES-GCM is a secure MAC
+//@ replay: verif_replay_encrypt::enc_load q:u64 n:u64 ccn:u32 auth:bool
+#[kani::proof]
+#[kani::unwind(34)]
+#[kani::stub(alloc::fmt::format, nofmt)]
+#[kani::stub(<std::io::Error as std::convert::From<crate::errors::Error>>::from, cheap_from)]
+#[kani::stub(crate::crypto::aesgcm::AesGcm256::new, stub_gcm_new)]
+#[kani::stub(crate::crypto::aesgcm::AesGcm256::decrypt, stub_gcm_decrypt)]
+#[kani::stub(alloc::io::default_read_to_end, model_rte2)]
+#[kani::stub(alloc::vec::Vec::resize, shrink_only_resize)]
+fn h_enc_load_auth_refines_short() {
+    load_auth_body(true);
+}
+
+fn load_auth_body(short: bool) {
     let q: u64 = kani::any();
     let n: u64 = kani::any();
     kani::assume(n <= 3 * SPEC_CTS + 64 && q <= n);
@@ -556,7 +621,9 @@ fn h_enc_load_auth_refines() {
     let cl: u64 = kani::any();
     let cp: u64 = kani::any();
     kani::assume(cl <= SPEC_CHUNK && cp <= SPEC_CHUNK);
-    let mut l = mk_internal(Abs::new(n, q), ccn, cl, cp);
+    let mut src = Abs::new(n, q);
+    src.short_reads = short;
+    let mut l = mk_internal(src, ccn, cl, cp);
     let rem = n - q;
     kani::cover!(rem == 0, "nothing left");
     kani::cover!(rem > 0 && rem < SPEC_TAG, "final chunk shorter than its tag");
@@ -586,12 +653,23 @@ fn h_enc_load_auth_refines() {
     core::mem::forget(l);
 }
 
+/// stand-in for `std::io::copy` where the unauthenticated load skips the tag: two reads of <= 32
+/// bytes forwarded with write_all (std's driver zero-fills an 8 KiB stack buffer in a loop)
+fn copy_tag_skip<R: Read + ?Sized, W: Write + ?Sized>(r: &mut R, w: &mut W) -> io::Result<u64> {
+    let mut tmp = [0u8; 32];
+    let n1 = r.read(&mut tmp)?;
+    w.write_all(&tmp[..n1])?;
+    let n2 = r.read(&mut tmp)?;
+    w.write_all(&tmp[..n2])?;
+    Ok((n1 + n2) as u64)
+}
+
 //@ props: C02 C05 C13
 //@ scaled: yes
 //@ functions: layers::encrypt::EncryptionLayerInternal::load_in_cache_unauthenticated (real body); AesGcm256::decrypt_unauthenticated over the model keystream
-//@ bounds: SCALED build (chunk = 4 bytes, tag 16); inner length n <= 3*20+64, any start q <= n (every remaining length incl. a cut inside data or inside a tag), any chunk counter, arbitrary previous cache
-//@ stubs: AesGcm256::new -> same struct via model constructors + ghost log; alloc::io::default_read_to_end -> single read into spare capacity; alloc::fmt::format; From<mla::Error> for io::Error
-//@ outside: sources that split a chunk over several reads (std read_to_end / io::copy loops are trusted)
+//@ bounds: SCALED build (chunk = 4 bytes, tag 16); source delivering everything asked; inner length n <= 3*20+64, any start q <= n (every remaining length incl. a cut inside data or inside a tag), any chunk counter, arbitrary previous cache
+//@ stubs: AesGcm256::new -> same struct via model constructors + ghost log; alloc::io::default_read_to_end -> single read into spare capacity; std::io::copy -> single read + write_all; alloc::fmt::format; From<mla::Error> for io::Error
+//@ outside: -
 //@ replay: verif_replay_encrypt::enc_load_unauth q:u64 n:u64 ccn:u32
 #[kani::proof]
 #[kani::unwind(34)]
@@ -599,7 +677,30 @@ fn h_enc_load_auth_refines() {
 #[kani::stub(<std::io::Error as std::convert::From<crate::errors::Error>>::from, cheap_from)]
 #[kani::stub(crate::crypto::aesgcm::AesGcm256::new, stub_gcm_new)]
 #[kani::stub(alloc::io::default_read_to_end, model_rte)]
+#[kani::stub(std::io::copy, copy_tag_skip)]
 fn h_enc_load_unauth_refines() {
+    load_unauth_body(false);
+}
+
+//@ props: C02 C05 C13
+//@ scaled: yes
+//@ functions: layers::encrypt::EncryptionLayerInternal::load_in_cache_unauthenticated (real body); AesGcm256::decrypt_unauthenticated over the model keystream
+//@ bounds: SCALED build (chunk = 4 bytes, tag 16); source whose FIRST read delivers at most 7 bytes (fewer than a tag, fewer than asked), later reads everything; inner length n <= 3*20+64, any start q <= n (every remaining length incl. a cut inside data or inside a tag), any chunk counter, arbitrary previous cache
+//@ stubs: AesGcm256::new -> same struct via model constructors + ghost log; alloc::io::default_read_to_end -> exactly two reads into spare capacity; std::io::copy -> single read + write_all; alloc::fmt::format; From<mla::Error> for io::Error
+//@ outside: -
+//@ replay: verif_replay_encrypt::enc_load_unauth q:u64 n:u64 ccn:u32
+#[kani::proof]
+#[kani::unwind(34)]
+#[kani::stub(alloc::fmt::format, nofmt)]
+#[kani::stub(<std::io::Error as std::convert::From<crate::errors::Error>>::from, cheap_from)]
+#[kani::stub(crate::crypto::aesgcm::AesGcm256::new, stub_gcm_new)]
+#[kani::stub(alloc::io::default_read_to_end, model_rte2)]
+#[kani::stub(std::io::copy, copy_tag_skip)]
+fn h_enc_load_unauth_refines_short() {
+    load_unauth_body(true);
+}
+
+fn load_unauth_body(short: bool) {
     let q: u64 = kani::any();
     let n: u64 = kani::any();
     kani::assume(n <= 3 * SPEC_CTS + 64 && q <= n);
@@ -607,7 +708,9 @@ fn h_enc_load_unauth_refines() {
     let cl: u64 = kani::any();
     let cp: u64 = kani::any();
     kani::assume(cl <= SPEC_CHUNK && cp <= SPEC_CHUNK);
-    let mut l = mk_internal(Abs::new(n, q), ccn, cl, cp);
+    let mut src = Abs::new(n, q);
+    src.short_reads = short;
+    let mut l = mk_internal(src, ccn, cl, cp);
     let rem = n - q;
     kani::cover!(rem == 0, "nothing left");
     kani::cover!(rem > 0 && rem < SPEC_CHUNK, "cut inside the data of the final chunk");
@@ -649,6 +752,7 @@ fn h_enc_load_unauth_refines() {
 #[kani::unwind(3)]
 #[kani::stub(alloc::fmt::format, nofmt)]
 #[kani::stub(<std::io::Error as std::convert::From<crate::errors::Error>>::from, cheap_from)]
+#[kani::stub(crate::crypto::aesgcm::AesGcm256::new, stub_gcm_new)]
 #[kani::stub(EncryptionLayerInternal::load_in_cache, contract_load_auth)]
 fn h_enc_read_step() {
     let n = any_wf_len();
@@ -700,20 +804,36 @@ fn h_enc_read_step() {
 fn mk_fs(mode: FailSafeReaderDecryptionMode, ccn: u32, cache_len: u64, cache_pos: u64) -> EncryptionLayerFailSafeReader<'static, FsSrc> {
     let key = [2u8; 32];
     let nonce = [3u8; NONCE_SIZE];
+    let cfg = EncryptionReaderConfig { private_keys: Vec::new(), encrypt_parameters: Some((key, nonce)), failsafe_mode: mode };
+    let inner: Box<dyn LayerFailSafeReader<'static, FsSrc>> = Box::new(FsSrc);
+    // real constructor over an (at that moment) empty source, then the state under study is assigned
+    let (len0, pos0) = unsafe { (FS_LEN, FS_POS) };
+    unsafe {
+        FS_LEN = 0;
+        FS_POS = 0;
+    }
+    let mut r = match EncryptionLayerFailSafeReader::new(inner, &cfg) {
+        Ok(r) => r,
+        Err(e) => {
+            core::mem::forget(e);
+            kani::assume(false);
+            unreachable!()
+        }
+    };
+    core::mem::forget(cfg);
+    unsafe {
+        FS_LEN = len0;
+        FS_POS = pos0;
+        LOADS = 0;
+        UNAUTH_LOADS = 0;
+        GCM_NEW_CALLS = 0;
+    }
     let mut c = Cursor::new(vec_of_len(cache_len));
     c.set_position(cache_pos);
-    let inner: Box<dyn LayerFailSafeReader<'static, FsSrc>> = Box::new(FsSrc);
-    EncryptionLayerFailSafeReader {
-        internal: EncryptionLayerInternal {
-            inner,
-            cipher: model_build(&key, &build_nonce(nonce, ccn)),
-            key,
-            nonce,
-            chunk_cache: c,
-            current_chunk_number: ccn,
-        },
-        decryption_mode: mode,
-    }
+    r.internal.cipher = model_build(&key, &build_nonce(nonce, ccn));
+    r.internal.chunk_cache = c;
+    r.internal.current_chunk_number = ccn;
+    r
 }
 
 /// every chunk 0..=i authentic
@@ -743,6 +863,7 @@ fn prefix_authentic(i: u32) -> bool {
 #[kani::unwind(5)]
 #[kani::stub(alloc::fmt::format, nofmt)]
 #[kani::stub(<std::io::Error as std::convert::From<crate::errors::Error>>::from, cheap_from)]
+#[kani::stub(crate::crypto::aesgcm::AesGcm256::new, stub_gcm_new)]
 #[kani::stub(EncryptionLayerInternal::load_in_cache, contract_load_auth_fs)]
 #[kani::stub(EncryptionLayerInternal::load_in_cache_unauthenticated, contract_load_unauth)]
 fn h_enc_fs_read_auth() {
@@ -763,9 +884,10 @@ fn h_enc_fs_read_auth() {
     unsafe {
         FS_LEN = n;
         FS_POS = u64::from(i) * SPEC_CTS + avail_i;
-        CACHE_VERIFIED = true;
     }
     let mut r = mk_fs(FailSafeReaderDecryptionMode::OnlyAuthenticatedData, i, cl, cp);
+    // (set after construction: the constructor itself performs an unauthenticated load)
+    unsafe { CACHE_VERIFIED = true };
     let b1: usize = kani::any();
     let b2: usize = kani::any();
     kani::assume(b1 >= 1 && b1 <= 8 && b2 >= 1 && b2 <= 8);
@@ -828,6 +950,7 @@ fn h_enc_fs_read_auth() {
 #[kani::unwind(5)]
 #[kani::stub(alloc::fmt::format, nofmt)]
 #[kani::stub(<std::io::Error as std::convert::From<crate::errors::Error>>::from, cheap_from)]
+#[kani::stub(crate::crypto::aesgcm::AesGcm256::new, stub_gcm_new)]
 #[kani::stub(EncryptionLayerInternal::load_in_cache, contract_load_auth_fs)]
 #[kani::stub(EncryptionLayerInternal::load_in_cache_unauthenticated, contract_load_unauth)]
 fn h_enc_fs_read_unauth() {
@@ -940,6 +1063,7 @@ fn h_enc_fs_first_chunk_auth() {
 #[kani::unwind(3)]
 #[kani::stub(alloc::fmt::format, nofmt)]
 #[kani::stub(<std::io::Error as std::convert::From<crate::errors::Error>>::from, cheap_from)]
+#[kani::stub(crate::crypto::aesgcm::AesGcm256::new, stub_gcm_new)]
 #[kani::stub(EncryptionLayerInternal::load_in_cache, contract_load_auth)]
 fn h_enc_seek_total() {
     let n: u64 = kani::any();
@@ -976,7 +1100,8 @@ fn h_enc_seek_total() {
 fn mk_writer(off: u64, ctr: u32, key: Key, prefix: [u8; NONCE_SIZE], pending: [u8; 4]) -> EncryptionLayerWriter<'static, Rec> {
     // cipher state of a chunk in which `off` bytes were already encrypted
     let cipher = crate::crypto::aesgcm::verif_aesgcm::model_build_at(&key, &build_nonce(prefix, ctr), off, pending);
-    let inner: InnerWriterType<'static, Rec> = Box::new(Rec::new());
+    let rec = Rec::new();
+    let inner: InnerWriterType<'static, Rec> = Box::new(rec);
     EncryptionLayerWriter { inner, cipher, key, nonce_prefix: prefix, current_chunk_offset: off, current_ctr: ctr }
 }
 /// the writer's sink is behind a trait object: observe it through ghost statics
@@ -1169,6 +1294,438 @@ fn h_enc_w_4_6() {
     writer_step_body(4, 6);
 }
 
+//@ props: C01 C06 C07
+//@ scaled: yes
+//@ tier: thorough
+//@ functions: <layers::encrypt::EncryptionLayerWriter<W> as std::io::Write>::write; build_nonce; AesGcm256::encrypt over model primitives
+//@ bounds: SCALED build (chunk 4, cipher buffer 3); CONCRETE chunk offset 0 and buffer length 2 (thorough tier: ALL 35 pairs offset 0..=4 x length 0..=6 are enumerated); symbolic data bytes, key, nonce prefix, chunk counter < 2^32-1, pending GHASH bytes
+//@ stubs: AesGcm256::new -> same struct via model constructors; std::io::copy -> single read + write_all; alloc::fmt::format; From<mla::Error> for io::Error; model aes/ctr/ghash
+//@ outside: production buffer sizes (same code, constants differ)
+//@ replay: verif_replay_encrypt::enc_writer off=0 blen=2 ctr:u32
+#[kani::proof]
+#[kani::unwind(8)]
+#[kani::stub(alloc::fmt::format, nofmt)]
+#[kani::stub(<std::io::Error as std::convert::From<crate::errors::Error>>::from, cheap_from)]
+#[kani::stub(crate::crypto::aesgcm::AesGcm256::new, stub_gcm_new)]
+#[kani::stub(std::io::copy, copy_small_enc)]
+fn h_enc_w_0_2() {
+    writer_step_body(0, 2);
+}
+
+//@ props: C01 C06 C07
+//@ scaled: yes
+//@ tier: thorough
+//@ functions: <layers::encrypt::EncryptionLayerWriter<W> as std::io::Write>::write; build_nonce; AesGcm256::encrypt over model primitives
+//@ bounds: SCALED build (chunk 4, cipher buffer 3); CONCRETE chunk offset 0 and buffer length 4 (thorough tier: ALL 35 pairs offset 0..=4 x length 0..=6 are enumerated); symbolic data bytes, key, nonce prefix, chunk counter < 2^32-1, pending GHASH bytes
+//@ stubs: AesGcm256::new -> same struct via model constructors; std::io::copy -> single read + write_all; alloc::fmt::format; From<mla::Error> for io::Error; model aes/ctr/ghash
+//@ outside: production buffer sizes (same code, constants differ)
+//@ replay: verif_replay_encrypt::enc_writer off=0 blen=4 ctr:u32
+#[kani::proof]
+#[kani::unwind(8)]
+#[kani::stub(alloc::fmt::format, nofmt)]
+#[kani::stub(<std::io::Error as std::convert::From<crate::errors::Error>>::from, cheap_from)]
+#[kani::stub(crate::crypto::aesgcm::AesGcm256::new, stub_gcm_new)]
+#[kani::stub(std::io::copy, copy_small_enc)]
+fn h_enc_w_0_4() {
+    writer_step_body(0, 4);
+}
+
+//@ props: C01 C06 C07
+//@ scaled: yes
+//@ tier: thorough
+//@ functions: <layers::encrypt::EncryptionLayerWriter<W> as std::io::Write>::write; build_nonce; AesGcm256::encrypt over model primitives
+//@ bounds: SCALED build (chunk 4, cipher buffer 3); CONCRETE chunk offset 0 and buffer length 5 (thorough tier: ALL 35 pairs offset 0..=4 x length 0..=6 are enumerated); symbolic data bytes, key, nonce prefix, chunk counter < 2^32-1, pending GHASH bytes
+//@ stubs: AesGcm256::new -> same struct via model constructors; std::io::copy -> single read + write_all; alloc::fmt::format; From<mla::Error> for io::Error; model aes/ctr/ghash
+//@ outside: production buffer sizes (same code, constants differ)
+//@ replay: verif_replay_encrypt::enc_writer off=0 blen=5 ctr:u32
+#[kani::proof]
+#[kani::unwind(8)]
+#[kani::stub(alloc::fmt::format, nofmt)]
+#[kani::stub(<std::io::Error as std::convert::From<crate::errors::Error>>::from, cheap_from)]
+#[kani::stub(crate::crypto::aesgcm::AesGcm256::new, stub_gcm_new)]
+#[kani::stub(std::io::copy, copy_small_enc)]
+fn h_enc_w_0_5() {
+    writer_step_body(0, 5);
+}
+
+//@ props: C01 C06 C07
+//@ scaled: yes
+//@ tier: thorough
+//@ functions: <layers::encrypt::EncryptionLayerWriter<W> as std::io::Write>::write; build_nonce; AesGcm256::encrypt over model primitives
+//@ bounds: SCALED build (chunk 4, cipher buffer 3); CONCRETE chunk offset 1 and buffer length 0 (thorough tier: ALL 35 pairs offset 0..=4 x length 0..=6 are enumerated); symbolic data bytes, key, nonce prefix, chunk counter < 2^32-1, pending GHASH bytes
+//@ stubs: AesGcm256::new -> same struct via model constructors; std::io::copy -> single read + write_all; alloc::fmt::format; From<mla::Error> for io::Error; model aes/ctr/ghash
+//@ outside: production buffer sizes (same code, constants differ)
+//@ replay: verif_replay_encrypt::enc_writer off=1 blen=0 ctr:u32
+#[kani::proof]
+#[kani::unwind(8)]
+#[kani::stub(alloc::fmt::format, nofmt)]
+#[kani::stub(<std::io::Error as std::convert::From<crate::errors::Error>>::from, cheap_from)]
+#[kani::stub(crate::crypto::aesgcm::AesGcm256::new, stub_gcm_new)]
+#[kani::stub(std::io::copy, copy_small_enc)]
+fn h_enc_w_1_0() {
+    writer_step_body(1, 0);
+}
+
+//@ props: C01 C06 C07
+//@ scaled: yes
+//@ tier: thorough
+//@ functions: <layers::encrypt::EncryptionLayerWriter<W> as std::io::Write>::write; build_nonce; AesGcm256::encrypt over model primitives
+//@ bounds: SCALED build (chunk 4, cipher buffer 3); CONCRETE chunk offset 1 and buffer length 1 (thorough tier: ALL 35 pairs offset 0..=4 x length 0..=6 are enumerated); symbolic data bytes, key, nonce prefix, chunk counter < 2^32-1, pending GHASH bytes
+//@ stubs: AesGcm256::new -> same struct via model constructors; std::io::copy -> single read + write_all; alloc::fmt::format; From<mla::Error> for io::Error; model aes/ctr/ghash
+//@ outside: production buffer sizes (same code, constants differ)
+//@ replay: verif_replay_encrypt::enc_writer off=1 blen=1 ctr:u32
+#[kani::proof]
+#[kani::unwind(8)]
+#[kani::stub(alloc::fmt::format, nofmt)]
+#[kani::stub(<std::io::Error as std::convert::From<crate::errors::Error>>::from, cheap_from)]
+#[kani::stub(crate::crypto::aesgcm::AesGcm256::new, stub_gcm_new)]
+#[kani::stub(std::io::copy, copy_small_enc)]
+fn h_enc_w_1_1() {
+    writer_step_body(1, 1);
+}
+
+//@ props: C01 C06 C07
+//@ scaled: yes
+//@ tier: thorough
+//@ functions: <layers::encrypt::EncryptionLayerWriter<W> as std::io::Write>::write; build_nonce; AesGcm256::encrypt over model primitives
+//@ bounds: SCALED build (chunk 4, cipher buffer 3); CONCRETE chunk offset 1 and buffer length 2 (thorough tier: ALL 35 pairs offset 0..=4 x length 0..=6 are enumerated); symbolic data bytes, key, nonce prefix, chunk counter < 2^32-1, pending GHASH bytes
+//@ stubs: AesGcm256::new -> same struct via model constructors; std::io::copy -> single read + write_all; alloc::fmt::format; From<mla::Error> for io::Error; model aes/ctr/ghash
+//@ outside: production buffer sizes (same code, constants differ)
+//@ replay: verif_replay_encrypt::enc_writer off=1 blen=2 ctr:u32
+#[kani::proof]
+#[kani::unwind(8)]
+#[kani::stub(alloc::fmt::format, nofmt)]
+#[kani::stub(<std::io::Error as std::convert::From<crate::errors::Error>>::from, cheap_from)]
+#[kani::stub(crate::crypto::aesgcm::AesGcm256::new, stub_gcm_new)]
+#[kani::stub(std::io::copy, copy_small_enc)]
+fn h_enc_w_1_2() {
+    writer_step_body(1, 2);
+}
+
+//@ props: C01 C06 C07
+//@ scaled: yes
+//@ tier: thorough
+//@ functions: <layers::encrypt::EncryptionLayerWriter<W> as std::io::Write>::write; build_nonce; AesGcm256::encrypt over model primitives
+//@ bounds: SCALED build (chunk 4, cipher buffer 3); CONCRETE chunk offset 1 and buffer length 3 (thorough tier: ALL 35 pairs offset 0..=4 x length 0..=6 are enumerated); symbolic data bytes, key, nonce prefix, chunk counter < 2^32-1, pending GHASH bytes
+//@ stubs: AesGcm256::new -> same struct via model constructors; std::io::copy -> single read + write_all; alloc::fmt::format; From<mla::Error> for io::Error; model aes/ctr/ghash
+//@ outside: production buffer sizes (same code, constants differ)
+//@ replay: verif_replay_encrypt::enc_writer off=1 blen=3 ctr:u32
+#[kani::proof]
+#[kani::unwind(8)]
+#[kani::stub(alloc::fmt::format, nofmt)]
+#[kani::stub(<std::io::Error as std::convert::From<crate::errors::Error>>::from, cheap_from)]
+#[kani::stub(crate::crypto::aesgcm::AesGcm256::new, stub_gcm_new)]
+#[kani::stub(std::io::copy, copy_small_enc)]
+fn h_enc_w_1_3() {
+    writer_step_body(1, 3);
+}
+
+//@ props: C01 C06 C07
+//@ scaled: yes
+//@ tier: thorough
+//@ functions: <layers::encrypt::EncryptionLayerWriter<W> as std::io::Write>::write; build_nonce; AesGcm256::encrypt over model primitives
+//@ bounds: SCALED build (chunk 4, cipher buffer 3); CONCRETE chunk offset 1 and buffer length 4 (thorough tier: ALL 35 pairs offset 0..=4 x length 0..=6 are enumerated); symbolic data bytes, key, nonce prefix, chunk counter < 2^32-1, pending GHASH bytes
+//@ stubs: AesGcm256::new -> same struct via model constructors; std::io::copy -> single read + write_all; alloc::fmt::format; From<mla::Error> for io::Error; model aes/ctr/ghash
+//@ outside: production buffer sizes (same code, constants differ)
+//@ replay: verif_replay_encrypt::enc_writer off=1 blen=4 ctr:u32
+#[kani::proof]
+#[kani::unwind(8)]
+#[kani::stub(alloc::fmt::format, nofmt)]
+#[kani::stub(<std::io::Error as std::convert::From<crate::errors::Error>>::from, cheap_from)]
+#[kani::stub(crate::crypto::aesgcm::AesGcm256::new, stub_gcm_new)]
+#[kani::stub(std::io::copy, copy_small_enc)]
+fn h_enc_w_1_4() {
+    writer_step_body(1, 4);
+}
+
+//@ props: C01 C06 C07
+//@ scaled: yes
+//@ tier: thorough
+//@ functions: <layers::encrypt::EncryptionLayerWriter<W> as std::io::Write>::write; build_nonce; AesGcm256::encrypt over model primitives
+//@ bounds: SCALED build (chunk 4, cipher buffer 3); CONCRETE chunk offset 1 and buffer length 5 (thorough tier: ALL 35 pairs offset 0..=4 x length 0..=6 are enumerated); symbolic data bytes, key, nonce prefix, chunk counter < 2^32-1, pending GHASH bytes
+//@ stubs: AesGcm256::new -> same struct via model constructors; std::io::copy -> single read + write_all; alloc::fmt::format; From<mla::Error> for io::Error; model aes/ctr/ghash
+//@ outside: production buffer sizes (same code, constants differ)
+//@ replay: verif_replay_encrypt::enc_writer off=1 blen=5 ctr:u32
+#[kani::proof]
+#[kani::unwind(8)]
+#[kani::stub(alloc::fmt::format, nofmt)]
+#[kani::stub(<std::io::Error as std::convert::From<crate::errors::Error>>::from, cheap_from)]
+#[kani::stub(crate::crypto::aesgcm::AesGcm256::new, stub_gcm_new)]
+#[kani::stub(std::io::copy, copy_small_enc)]
+fn h_enc_w_1_5() {
+    writer_step_body(1, 5);
+}
+
+//@ props: C01 C06 C07
+//@ scaled: yes
+//@ tier: thorough
+//@ functions: <layers::encrypt::EncryptionLayerWriter<W> as std::io::Write>::write; build_nonce; AesGcm256::encrypt over model primitives
+//@ bounds: SCALED build (chunk 4, cipher buffer 3); CONCRETE chunk offset 1 and buffer length 6 (thorough tier: ALL 35 pairs offset 0..=4 x length 0..=6 are enumerated); symbolic data bytes, key, nonce prefix, chunk counter < 2^32-1, pending GHASH bytes
+//@ stubs: AesGcm256::new -> same struct via model constructors; std::io::copy -> single read + write_all; alloc::fmt::format; From<mla::Error> for io::Error; model aes/ctr/ghash
+//@ outside: production buffer sizes (same code, constants differ)
+//@ replay: verif_replay_encrypt::enc_writer off=1 blen=6 ctr:u32
+#[kani::proof]
+#[kani::unwind(8)]
+#[kani::stub(alloc::fmt::format, nofmt)]
+#[kani::stub(<std::io::Error as std::convert::From<crate::errors::Error>>::from, cheap_from)]
+#[kani::stub(crate::crypto::aesgcm::AesGcm256::new, stub_gcm_new)]
+#[kani::stub(std::io::copy, copy_small_enc)]
+fn h_enc_w_1_6() {
+    writer_step_body(1, 6);
+}
+
+//@ props: C01 C06 C07
+//@ scaled: yes
+//@ tier: thorough
+//@ functions: <layers::encrypt::EncryptionLayerWriter<W> as std::io::Write>::write; build_nonce; AesGcm256::encrypt over model primitives
+//@ bounds: SCALED build (chunk 4, cipher buffer 3); CONCRETE chunk offset 2 and buffer length 0 (thorough tier: ALL 35 pairs offset 0..=4 x length 0..=6 are enumerated); symbolic data bytes, key, nonce prefix, chunk counter < 2^32-1, pending GHASH bytes
+//@ stubs: AesGcm256::new -> same struct via model constructors; std::io::copy -> single read + write_all; alloc::fmt::format; From<mla::Error> for io::Error; model aes/ctr/ghash
+//@ outside: production buffer sizes (same code, constants differ)
+//@ replay: verif_replay_encrypt::enc_writer off=2 blen=0 ctr:u32
+#[kani::proof]
+#[kani::unwind(8)]
+#[kani::stub(alloc::fmt::format, nofmt)]
+#[kani::stub(<std::io::Error as std::convert::From<crate::errors::Error>>::from, cheap_from)]
+#[kani::stub(crate::crypto::aesgcm::AesGcm256::new, stub_gcm_new)]
+#[kani::stub(std::io::copy, copy_small_enc)]
+fn h_enc_w_2_0() {
+    writer_step_body(2, 0);
+}
+
+//@ props: C01 C06 C07
+//@ scaled: yes
+//@ tier: thorough
+//@ functions: <layers::encrypt::EncryptionLayerWriter<W> as std::io::Write>::write; build_nonce; AesGcm256::encrypt over model primitives
+//@ bounds: SCALED build (chunk 4, cipher buffer 3); CONCRETE chunk offset 2 and buffer length 2 (thorough tier: ALL 35 pairs offset 0..=4 x length 0..=6 are enumerated); symbolic data bytes, key, nonce prefix, chunk counter < 2^32-1, pending GHASH bytes
+//@ stubs: AesGcm256::new -> same struct via model constructors; std::io::copy -> single read + write_all; alloc::fmt::format; From<mla::Error> for io::Error; model aes/ctr/ghash
+//@ outside: production buffer sizes (same code, constants differ)
+//@ replay: verif_replay_encrypt::enc_writer off=2 blen=2 ctr:u32
+#[kani::proof]
+#[kani::unwind(8)]
+#[kani::stub(alloc::fmt::format, nofmt)]
+#[kani::stub(<std::io::Error as std::convert::From<crate::errors::Error>>::from, cheap_from)]
+#[kani::stub(crate::crypto::aesgcm::AesGcm256::new, stub_gcm_new)]
+#[kani::stub(std::io::copy, copy_small_enc)]
+fn h_enc_w_2_2() {
+    writer_step_body(2, 2);
+}
+
+//@ props: C01 C06 C07
+//@ scaled: yes
+//@ tier: thorough
+//@ functions: <layers::encrypt::EncryptionLayerWriter<W> as std::io::Write>::write; build_nonce; AesGcm256::encrypt over model primitives
+//@ bounds: SCALED build (chunk 4, cipher buffer 3); CONCRETE chunk offset 2 and buffer length 3 (thorough tier: ALL 35 pairs offset 0..=4 x length 0..=6 are enumerated); symbolic data bytes, key, nonce prefix, chunk counter < 2^32-1, pending GHASH bytes
+//@ stubs: AesGcm256::new -> same struct via model constructors; std::io::copy -> single read + write_all; alloc::fmt::format; From<mla::Error> for io::Error; model aes/ctr/ghash
+//@ outside: production buffer sizes (same code, constants differ)
+//@ replay: verif_replay_encrypt::enc_writer off=2 blen=3 ctr:u32
+#[kani::proof]
+#[kani::unwind(8)]
+#[kani::stub(alloc::fmt::format, nofmt)]
+#[kani::stub(<std::io::Error as std::convert::From<crate::errors::Error>>::from, cheap_from)]
+#[kani::stub(crate::crypto::aesgcm::AesGcm256::new, stub_gcm_new)]
+#[kani::stub(std::io::copy, copy_small_enc)]
+fn h_enc_w_2_3() {
+    writer_step_body(2, 3);
+}
+
+//@ props: C01 C06 C07
+//@ scaled: yes
+//@ tier: thorough
+//@ functions: <layers::encrypt::EncryptionLayerWriter<W> as std::io::Write>::write; build_nonce; AesGcm256::encrypt over model primitives
+//@ bounds: SCALED build (chunk 4, cipher buffer 3); CONCRETE chunk offset 2 and buffer length 4 (thorough tier: ALL 35 pairs offset 0..=4 x length 0..=6 are enumerated); symbolic data bytes, key, nonce prefix, chunk counter < 2^32-1, pending GHASH bytes
+//@ stubs: AesGcm256::new -> same struct via model constructors; std::io::copy -> single read + write_all; alloc::fmt::format; From<mla::Error> for io::Error; model aes/ctr/ghash
+//@ outside: production buffer sizes (same code, constants differ)
+//@ replay: verif_replay_encrypt::enc_writer off=2 blen=4 ctr:u32
+#[kani::proof]
+#[kani::unwind(8)]
+#[kani::stub(alloc::fmt::format, nofmt)]
+#[kani::stub(<std::io::Error as std::convert::From<crate::errors::Error>>::from, cheap_from)]
+#[kani::stub(crate::crypto::aesgcm::AesGcm256::new, stub_gcm_new)]
+#[kani::stub(std::io::copy, copy_small_enc)]
+fn h_enc_w_2_4() {
+    writer_step_body(2, 4);
+}
+
+//@ props: C01 C06 C07
+//@ scaled: yes
+//@ tier: thorough
+//@ functions: <layers::encrypt::EncryptionLayerWriter<W> as std::io::Write>::write; build_nonce; AesGcm256::encrypt over model primitives
+//@ bounds: SCALED build (chunk 4, cipher buffer 3); CONCRETE chunk offset 2 and buffer length 5 (thorough tier: ALL 35 pairs offset 0..=4 x length 0..=6 are enumerated); symbolic data bytes, key, nonce prefix, chunk counter < 2^32-1, pending GHASH bytes
+//@ stubs: AesGcm256::new -> same struct via model constructors; std::io::copy -> single read + write_all; alloc::fmt::format; From<mla::Error> for io::Error; model aes/ctr/ghash
+//@ outside: production buffer sizes (same code, constants differ)
+//@ replay: verif_replay_encrypt::enc_writer off=2 blen=5 ctr:u32
+#[kani::proof]
+#[kani::unwind(8)]
+#[kani::stub(alloc::fmt::format, nofmt)]
+#[kani::stub(<std::io::Error as std::convert::From<crate::errors::Error>>::from, cheap_from)]
+#[kani::stub(crate::crypto::aesgcm::AesGcm256::new, stub_gcm_new)]
+#[kani::stub(std::io::copy, copy_small_enc)]
+fn h_enc_w_2_5() {
+    writer_step_body(2, 5);
+}
+
+//@ props: C01 C06 C07
+//@ scaled: yes
+//@ tier: thorough
+//@ functions: <layers::encrypt::EncryptionLayerWriter<W> as std::io::Write>::write; build_nonce; AesGcm256::encrypt over model primitives
+//@ bounds: SCALED build (chunk 4, cipher buffer 3); CONCRETE chunk offset 3 and buffer length 0 (thorough tier: ALL 35 pairs offset 0..=4 x length 0..=6 are enumerated); symbolic data bytes, key, nonce prefix, chunk counter < 2^32-1, pending GHASH bytes
+//@ stubs: AesGcm256::new -> same struct via model constructors; std::io::copy -> single read + write_all; alloc::fmt::format; From<mla::Error> for io::Error; model aes/ctr/ghash
+//@ outside: production buffer sizes (same code, constants differ)
+//@ replay: verif_replay_encrypt::enc_writer off=3 blen=0 ctr:u32
+#[kani::proof]
+#[kani::unwind(8)]
+#[kani::stub(alloc::fmt::format, nofmt)]
+#[kani::stub(<std::io::Error as std::convert::From<crate::errors::Error>>::from, cheap_from)]
+#[kani::stub(crate::crypto::aesgcm::AesGcm256::new, stub_gcm_new)]
+#[kani::stub(std::io::copy, copy_small_enc)]
+fn h_enc_w_3_0() {
+    writer_step_body(3, 0);
+}
+
+//@ props: C01 C06 C07
+//@ scaled: yes
+//@ tier: thorough
+//@ functions: <layers::encrypt::EncryptionLayerWriter<W> as std::io::Write>::write; build_nonce; AesGcm256::encrypt over model primitives
+//@ bounds: SCALED build (chunk 4, cipher buffer 3); CONCRETE chunk offset 3 and buffer length 2 (thorough tier: ALL 35 pairs offset 0..=4 x length 0..=6 are enumerated); symbolic data bytes, key, nonce prefix, chunk counter < 2^32-1, pending GHASH bytes
+//@ stubs: AesGcm256::new -> same struct via model constructors; std::io::copy -> single read + write_all; alloc::fmt::format; From<mla::Error> for io::Error; model aes/ctr/ghash
+//@ outside: production buffer sizes (same code, constants differ)
+//@ replay: verif_replay_encrypt::enc_writer off=3 blen=2 ctr:u32
+#[kani::proof]
+#[kani::unwind(8)]
+#[kani::stub(alloc::fmt::format, nofmt)]
+#[kani::stub(<std::io::Error as std::convert::From<crate::errors::Error>>::from, cheap_from)]
+#[kani::stub(crate::crypto::aesgcm::AesGcm256::new, stub_gcm_new)]
+#[kani::stub(std::io::copy, copy_small_enc)]
+fn h_enc_w_3_2() {
+    writer_step_body(3, 2);
+}
+
+//@ props: C01 C06 C07
+//@ scaled: yes
+//@ tier: thorough
+//@ functions: <layers::encrypt::EncryptionLayerWriter<W> as std::io::Write>::write; build_nonce; AesGcm256::encrypt over model primitives
+//@ bounds: SCALED build (chunk 4, cipher buffer 3); CONCRETE chunk offset 3 and buffer length 3 (thorough tier: ALL 35 pairs offset 0..=4 x length 0..=6 are enumerated); symbolic data bytes, key, nonce prefix, chunk counter < 2^32-1, pending GHASH bytes
+//@ stubs: AesGcm256::new -> same struct via model constructors; std::io::copy -> single read + write_all; alloc::fmt::format; From<mla::Error> for io::Error; model aes/ctr/ghash
+//@ outside: production buffer sizes (same code, constants differ)
+//@ replay: verif_replay_encrypt::enc_writer off=3 blen=3 ctr:u32
+#[kani::proof]
+#[kani::unwind(8)]
+#[kani::stub(alloc::fmt::format, nofmt)]
+#[kani::stub(<std::io::Error as std::convert::From<crate::errors::Error>>::from, cheap_from)]
+#[kani::stub(crate::crypto::aesgcm::AesGcm256::new, stub_gcm_new)]
+#[kani::stub(std::io::copy, copy_small_enc)]
+fn h_enc_w_3_3() {
+    writer_step_body(3, 3);
+}
+
+//@ props: C01 C06 C07
+//@ scaled: yes
+//@ tier: thorough
+//@ functions: <layers::encrypt::EncryptionLayerWriter<W> as std::io::Write>::write; build_nonce; AesGcm256::encrypt over model primitives
+//@ bounds: SCALED build (chunk 4, cipher buffer 3); CONCRETE chunk offset 3 and buffer length 4 (thorough tier: ALL 35 pairs offset 0..=4 x length 0..=6 are enumerated); symbolic data bytes, key, nonce prefix, chunk counter < 2^32-1, pending GHASH bytes
+//@ stubs: AesGcm256::new -> same struct via model constructors; std::io::copy -> single read + write_all; alloc::fmt::format; From<mla::Error> for io::Error; model aes/ctr/ghash
+//@ outside: production buffer sizes (same code, constants differ)
+//@ replay: verif_replay_encrypt::enc_writer off=3 blen=4 ctr:u32
+#[kani::proof]
+#[kani::unwind(8)]
+#[kani::stub(alloc::fmt::format, nofmt)]
+#[kani::stub(<std::io::Error as std::convert::From<crate::errors::Error>>::from, cheap_from)]
+#[kani::stub(crate::crypto::aesgcm::AesGcm256::new, stub_gcm_new)]
+#[kani::stub(std::io::copy, copy_small_enc)]
+fn h_enc_w_3_4() {
+    writer_step_body(3, 4);
+}
+
+//@ props: C01 C06 C07
+//@ scaled: yes
+//@ tier: thorough
+//@ functions: <layers::encrypt::EncryptionLayerWriter<W> as std::io::Write>::write; build_nonce; AesGcm256::encrypt over model primitives
+//@ bounds: SCALED build (chunk 4, cipher buffer 3); CONCRETE chunk offset 3 and buffer length 6 (thorough tier: ALL 35 pairs offset 0..=4 x length 0..=6 are enumerated); symbolic data bytes, key, nonce prefix, chunk counter < 2^32-1, pending GHASH bytes
+//@ stubs: AesGcm256::new -> same struct via model constructors; std::io::copy -> single read + write_all; alloc::fmt::format; From<mla::Error> for io::Error; model aes/ctr/ghash
+//@ outside: production buffer sizes (same code, constants differ)
+//@ replay: verif_replay_encrypt::enc_writer off=3 blen=6 ctr:u32
+#[kani::proof]
+#[kani::unwind(8)]
+#[kani::stub(alloc::fmt::format, nofmt)]
+#[kani::stub(<std::io::Error as std::convert::From<crate::errors::Error>>::from, cheap_from)]
+#[kani::stub(crate::crypto::aesgcm::AesGcm256::new, stub_gcm_new)]
+#[kani::stub(std::io::copy, copy_small_enc)]
+fn h_enc_w_3_6() {
+    writer_step_body(3, 6);
+}
+
+//@ props: C01 C06 C07
+//@ scaled: yes
+//@ tier: thorough
+//@ functions: <layers::encrypt::EncryptionLayerWriter<W> as std::io::Write>::write (roll-over arm); EncryptionLayerWriter::renew_cipher; AesGcm256::into_tag; build_nonce; AesGcm256::encrypt over model primitives
+//@ bounds: SCALED build (chunk 4, cipher buffer 3); CONCRETE chunk offset 4 and buffer length 2 (thorough tier: ALL 35 pairs offset 0..=4 x length 0..=6 are enumerated); symbolic data bytes, key, nonce prefix, chunk counter < 2^32-1, pending GHASH bytes
+//@ stubs: AesGcm256::new -> same struct via model constructors; std::io::copy -> single read + write_all; alloc::fmt::format; From<mla::Error> for io::Error; model aes/ctr/ghash
+//@ outside: production buffer sizes (same code, constants differ)
+//@ replay: verif_replay_encrypt::enc_writer off=4 blen=2 ctr:u32
+#[kani::proof]
+#[kani::unwind(18)]
+#[kani::stub(alloc::fmt::format, nofmt)]
+#[kani::stub(<std::io::Error as std::convert::From<crate::errors::Error>>::from, cheap_from)]
+#[kani::stub(crate::crypto::aesgcm::AesGcm256::new, stub_gcm_new)]
+#[kani::stub(std::io::copy, copy_small_enc)]
+fn h_enc_w_4_2() {
+    writer_step_body(4, 2);
+}
+
+//@ props: C01 C06 C07
+//@ scaled: yes
+//@ tier: thorough
+//@ functions: <layers::encrypt::EncryptionLayerWriter<W> as std::io::Write>::write (roll-over arm); EncryptionLayerWriter::renew_cipher; AesGcm256::into_tag; build_nonce; AesGcm256::encrypt over model primitives
+//@ bounds: SCALED build (chunk 4, cipher buffer 3); CONCRETE chunk offset 4 and buffer length 3 (thorough tier: ALL 35 pairs offset 0..=4 x length 0..=6 are enumerated); symbolic data bytes, key, nonce prefix, chunk counter < 2^32-1, pending GHASH bytes
+//@ stubs: AesGcm256::new -> same struct via model constructors; std::io::copy -> single read + write_all; alloc::fmt::format; From<mla::Error> for io::Error; model aes/ctr/ghash
+//@ outside: production buffer sizes (same code, constants differ)
+//@ replay: verif_replay_encrypt::enc_writer off=4 blen=3 ctr:u32
+#[kani::proof]
+#[kani::unwind(18)]
+#[kani::stub(alloc::fmt::format, nofmt)]
+#[kani::stub(<std::io::Error as std::convert::From<crate::errors::Error>>::from, cheap_from)]
+#[kani::stub(crate::crypto::aesgcm::AesGcm256::new, stub_gcm_new)]
+#[kani::stub(std::io::copy, copy_small_enc)]
+fn h_enc_w_4_3() {
+    writer_step_body(4, 3);
+}
+
+//@ props: C01 C06 C07
+//@ scaled: yes
+//@ tier: thorough
+//@ functions: <layers::encrypt::EncryptionLayerWriter<W> as std::io::Write>::write (roll-over arm); EncryptionLayerWriter::renew_cipher; AesGcm256::into_tag; build_nonce; AesGcm256::encrypt over model primitives
+//@ bounds: SCALED build (chunk 4, cipher buffer 3); CONCRETE chunk offset 4 and buffer length 4 (thorough tier: ALL 35 pairs offset 0..=4 x length 0..=6 are enumerated); symbolic data bytes, key, nonce prefix, chunk counter < 2^32-1, pending GHASH bytes
+//@ stubs: AesGcm256::new -> same struct via model constructors; std::io::copy -> single read + write_all; alloc::fmt::format; From<mla::Error> for io::Error; model aes/ctr/ghash
+//@ outside: production buffer sizes (same code, constants differ)
+//@ replay: verif_replay_encrypt::enc_writer off=4 blen=4 ctr:u32
+#[kani::proof]
+#[kani::unwind(18)]
+#[kani::stub(alloc::fmt::format, nofmt)]
+#[kani::stub(<std::io::Error as std::convert::From<crate::errors::Error>>::from, cheap_from)]
+#[kani::stub(crate::crypto::aesgcm::AesGcm256::new, stub_gcm_new)]
+#[kani::stub(std::io::copy, copy_small_enc)]
+fn h_enc_w_4_4() {
+    writer_step_body(4, 4);
+}
+
+//@ props: C01 C06 C07
+//@ scaled: yes
+//@ tier: thorough
+//@ functions: <layers::encrypt::EncryptionLayerWriter<W> as std::io::Write>::write (roll-over arm); EncryptionLayerWriter::renew_cipher; AesGcm256::into_tag; build_nonce; AesGcm256::encrypt over model primitives
+//@ bounds: SCALED build (chunk 4, cipher buffer 3); CONCRETE chunk offset 4 and buffer length 5 (thorough tier: ALL 35 pairs offset 0..=4 x length 0..=6 are enumerated); symbolic data bytes, key, nonce prefix, chunk counter < 2^32-1, pending GHASH bytes
+//@ stubs: AesGcm256::new -> same struct via model constructors; std::io::copy -> single read + write_all; alloc::fmt::format; From<mla::Error> for io::Error; model aes/ctr/ghash
+//@ outside: production buffer sizes (same code, constants differ)
+//@ replay: verif_replay_encrypt::enc_writer off=4 blen=5 ctr:u32
+#[kani::proof]
+#[kani::unwind(18)]
+#[kani::stub(alloc::fmt::format, nofmt)]
+#[kani::stub(<std::io::Error as std::convert::From<crate::errors::Error>>::from, cheap_from)]
+#[kani::stub(crate::crypto::aesgcm::AesGcm256::new, stub_gcm_new)]
+#[kani::stub(std::io::copy, copy_small_enc)]
+fn h_enc_w_4_5() {
+    writer_step_body(4, 5);
+}
+
 fn writer_step_body(off: u64, blen: usize) {
     let ctr: u32 = kani::any();
     kani::assume(off <= SPEC_CHUNK && ctr < u32::MAX);
@@ -1332,4 +1889,26 @@ fn h_enc_recipients() {
         }
     }
     core::mem::forget(cfg);
+}
+
+//@ props: C06 C03
+//@ functions: layers::encrypt::build_nonce
+//@ bounds: every 8-byte archive nonce and every 32-bit chunk counter
+//@ outside: -
+//@ replay: verif_replay_encrypt::enc_nonce ctr:u32
+#[kani::proof]
+#[kani::unwind(14)]
+fn h_enc_nonce() {
+    let prefix: [u8; NONCE_SIZE] = kani::any();
+    let ctr: u32 = kani::any();
+    kani::cover!(ctr == 1, "second chunk");
+    kani::cover!(ctr > 0x0100_0000, "high counter byte set");
+    let n = build_nonce(prefix, ctr);
+    let mut i = 0;
+    while i < 8 {
+        assert!(n[i] == prefix[i], "chunk nonce starts with the 8-byte archive nonce");
+        i += 1;
+    }
+    assert!(n[8] == (ctr >> 24) as u8 && n[9] == (ctr >> 16) as u8 && n[10] == (ctr >> 8) as u8 && n[11] == ctr as u8, "followed by the chunk index, big-endian");
+    assert!(NONCE_SIZE == 8 && n.len() == 12, "96-bit GCM nonce = 64-bit archive nonce || 32-bit counter");
 }
